@@ -129,6 +129,18 @@ def measure(job):
         out.append(("batch_exact", float(np.linalg.norm(yv - y_ref) / max(np.linalg.norm(y_ref), 1e-300) + np.linalg.norm(zv - z_ref) / max(np.linalg.norm(z_ref), 1e-300)), "nufft / nufft_adjoint with %s arguments vs C order" % lab))
         if not (np.array_equal(xv, xv0) and np.array_equal(cv, cv0)):
             out.append(("purity", 1.0, "nufft / nufft_adjoint modified a %s argument" % lab))
+    # single-precision coordinates, used for several calls (forward twice, then the adjoint): not overwritten, same result
+    c32 = pts.astype(np.float32)
+    c32_0 = c32.copy()
+    F32 = ndft_matrix(st) if np.array_equal(c32.astype(np.float64), pts) else None
+    ya = sp.nufft(xl, c32)
+    yb = sp.nufft(xl, c32)
+    za = sp.nufft_adjoint(ya, c32, oshape=shape)
+    out.append(("determinism", float(np.abs(ya - yb).max()), "nufft called twice with the same float32 coordinate array"))
+    if not np.array_equal(c32, c32_0):
+        out.append(("purity", 1.0, "nufft / nufft_adjoint modified the float32 coordinate array"))
+    if F32 is not None:
+        out.append((cls_name(1.25, 4), np.linalg.norm(yb - F32 @ xl.ravel()) / (nF * np.linalg.norm(xl) / np.sqrt(xl.size)), "second call with float32 coordinates vs the exact transform"))
     # batch axis, complex64 precision, real input, operator-level checks at the defaults
     coord = pts.copy()
     xb = rs.randn(2, *shape) + 1j * rs.randn(2, *shape)
